@@ -33,8 +33,18 @@ import (
 // ---- REG2BINS-RANGE -------------------------------------------------------------------
 
 func ruleReg2binsRange(c *Ctx, r *Rep, tier string) {
+	// csi.reg2bins walks level 0 (first bin 0) as well: end-1 must be ≥ 0, so
+	// end > beg. internal.OverlappingBinsFor puts bin 0 in the list and walks
+	// from level 1 (first bins ≥ 1, BIN-PAIRS): there end ≥ beg is enough – with
+	// end-1 = -1 the last bin wraps to one below the first and the loop is empty.
+	binsRange(c, r, "csi", "reg2bins", true)
+	binsRange(c, r, "internal", "OverlappingBinsFor", false)
+}
+
+func binsRange(c *Ctx, r *Rep, pkg, fname string, strict bool) {
 	rule := "REG2BINS-RANGE"
-	fn := c.Func("csi", "reg2bins")
+	fn := c.Func(pkg, fname)
+	name := pkg + "." + fname
 	bc := &boundsCtx{c: c, fn: fn}
 	begP, endP := ssa.Value(fn.Params[0]), ssa.Value(fn.Params[1])
 	// derives(v, p): v is p after clamps (φ with constants or other values) and -1
@@ -57,6 +67,14 @@ func ruleReg2binsRange(c *Ctx, r *Rep, tier string) {
 			if _, isK := x.Y.(*ssa.Const); isK && (x.Op == token.SUB || x.Op == token.ADD) {
 				return derives(x.X, p, depth+1)
 			}
+		case *ssa.Call:
+			if args, isMin := minArgs(x); isMin {
+				for _, a := range args {
+					if derives(a, p, depth+1) {
+						return true
+					}
+				}
+			}
 		}
 		return false
 	}
@@ -64,16 +82,16 @@ func ruleReg2binsRange(c *Ctx, r *Rep, tier string) {
 	allInstrs(fn, func(ins ssa.Instruction) {
 		if bo, ok := ins.(*ssa.BinOp); ok && bo.Op == token.SHR {
 			switch {
+			case derives(bo.X, endP, 0): // first: a clamped end may have beg among its edges
+				endShifts = append(endShifts, bo)
 			case derives(bo.X, begP, 0):
 				begShifts = append(begShifts, bo)
-			case derives(bo.X, endP, 0):
-				endShifts = append(endShifts, bo)
 			}
 		}
 	})
 	r.Instance(rule, 3)
 	if len(begShifts) == 0 || len(endShifts) == 0 {
-		r.Fail(rule, "csi.reg2bins#shifts", c.Pos(fn.Pos()), fmt.Sprintf("%d shifts of beg and %d of end found in reg2bins: the rule's anchor moved (undecided)", len(begShifts), len(endShifts)))
+		r.Fail(rule, name+"#shifts", c.Pos(fn.Pos()), fmt.Sprintf("%d shifts of beg and %d of end found in %s: the rule's anchor moved (undecided)", len(begShifts), len(endShifts), fname))
 		return
 	}
 	// (1) the start is non-negative
@@ -83,7 +101,7 @@ func ruleReg2binsRange(c *Ctx, r *Rep, tier string) {
 			why = fmt.Sprintf("beg is shifted and converted to uint32 at %s without having been shown non-negative: a negative start becomes bin 0xffffffff, which the unsigned counter of the bin loop cannot pass", c.Pos(sh.Pos()))
 		}
 	}
-	r.Check(why == "", rule, "csi.reg2bins#beg-nonneg", c.Pos(fn.Pos()), "beg ≥ 0 where it is shifted", why)
+	r.Check(why == "", rule, name+"#beg-nonneg", c.Pos(fn.Pos()), "beg ≥ 0 where it is shifted", why)
 
 	// (2) the end lies beyond the start (so end-1 ≥ 0)
 	why = ""
@@ -129,11 +147,61 @@ func ruleReg2binsRange(c *Ctx, r *Rep, tier string) {
 				shown = true
 			}
 		}
-		if !shown {
+		if !shown && !strict {
+			// end ≥ beg: a φ each of whose edges is beg itself or enters where
+			// end < beg has been found false
+			if p, isPhi := base.(*ssa.Phi); isPhi {
+				all := true
+				for i, e := range p.Edges {
+					pred := p.Block().Preds[i]
+					if derives(e, begP, 0) && !derives(e, endP, 0) {
+						continue
+					}
+					ok := false
+					for _, b := range fn.Blocks {
+						iff := ifOf(b)
+						if iff == nil || b.Succs[0] == b.Succs[1] {
+							continue
+						}
+						bo, isBo := iff.Cond.(*ssa.BinOp)
+						if !isBo {
+							continue
+						}
+						edge := -1
+						switch {
+						case bo.X == e && derives(bo.Y, begP, 0):
+							switch bo.Op {
+							case token.LSS:
+								edge = 1
+							case token.GEQ, token.GTR:
+								edge = 0
+							}
+						case bo.Y == e && derives(bo.X, begP, 0):
+							switch bo.Op {
+							case token.GTR:
+								edge = 1
+							case token.LEQ, token.LSS:
+								edge = 0
+							}
+						}
+						if edge >= 0 && ((b == pred && b.Succs[edge] == p.Block()) || dominatedByEdge(fn, b, edge, pred)) {
+							ok = true
+						}
+					}
+					if !ok {
+						all = false
+					}
+				}
+				shown = all
+			}
+		}
+		if !shown && !strict {
+			why = fmt.Sprintf("end-1 is shifted and converted to uint32 at %s without end having been shown at least beg: for a region that ends before it starts – the mate position -100000010 of a record as the BAM reader returns it – the last bin of a level lies some four thousand million above the first and the unsigned counter walks all of them", c.Pos(sh.Pos()))
+		} else if !shown {
 			why = fmt.Sprintf("end-1 is shifted and converted to uint32 at %s without end having been shown larger than a non-negative beg: for an empty region that ends at 0 (Chunks(rid, 0, 0)) end-1 is -1, the last bin of the top level becomes 0xffffffff, and the loop `for i := b; i <= e; i++` over a uint32 never ends", c.Pos(sh.Pos()))
 		}
 	}
-	r.Check(why == "", rule, "csi.reg2bins#end-after-beg", c.Pos(fn.Pos()), "end > beg ≥ 0 where end-1 is shifted", why)
+	r.Check(why == "", rule, name+"#end-after-beg", c.Pos(fn.Pos()), "end > beg ≥ 0 (end ≥ beg where level 0 is not walked) where end-1 is shifted", why)
 
 	// (3) the end is clipped to a power of two
 	why = ""
@@ -144,6 +212,9 @@ func ruleReg2binsRange(c *Ctx, r *Rep, tier string) {
 				continue
 			}
 			break
+		}
+		if k, isK := constInt(v); isK {
+			return k > 0 && k&(k-1) == 0 // 1 << a constant, folded
 		}
 		bo, ok := v.(*ssa.BinOp)
 		if !ok || bo.Op != token.SHL {
@@ -198,6 +269,17 @@ func ruleReg2binsRange(c *Ctx, r *Rep, tier string) {
 		if isPow(v) {
 			return true
 		}
+		if k, isK := constInt(v); isK && k >= 0 && k < 1<<40 {
+			return true // a constant (the 0 of a clamp from below)
+		}
+		if args, isMin := minArgs(v); isMin {
+			// min(end, limit)
+			for _, a := range args {
+				if isPow(a) {
+					return true
+				}
+			}
+		}
 		if p, ok := v.(*ssa.Phi); ok {
 			for i, e := range p.Edges {
 				pred := p.Block().Preds[i]
@@ -217,7 +299,7 @@ func ruleReg2binsRange(c *Ctx, r *Rep, tier string) {
 	if endBase == nil || !clipped(endBase, endShifts[0].Block(), 0) {
 		why = fmt.Sprintf("end reaches the shift at %s without having been clipped to a power of two (1 << (minShift + 3·depth), the first position the index cannot hold): for a large end – the usual way to ask for \"to the end of the reference\" – (end-1)>>s does not fit in 32 bits; with MaxInt64 its low 32 bits are all ones and the bin loop never ends", c.Pos(endShifts[0].Pos()))
 	}
-	r.Check(why == "", rule, "csi.reg2bins#end-clipped", c.Pos(fn.Pos()), "end ≤ 1 << … on every way to the shift", why)
+	r.Check(why == "", rule, name+"#end-clipped", c.Pos(fn.Pos()), "end ≤ 1 << … on every way to the shift", why)
 }
 
 // ---- AUX-EMPTY ------------------------------------------------------------------------
@@ -360,7 +442,7 @@ func ruleHexText(c *Ctx, r *Rep, tier string) {
 				return
 			}
 			for _, a := range call.Call.Args {
-				if f, isStr := constStringOf(a); isStr && (strings.Contains(f, "x") && strings.Contains(f, "%") && hexVerb(f)) && underCharCase(fn, call.Block(), 'H') {
+				if f, isStr := constStringOf(a); isStr && hexVerb(f) && underCharCase(fn, call.Block(), 'H') {
 					why = fmt.Sprintf("the H case formats with %q (%s): the field already holds the hexadecimal text, a hexadecimal verb encodes it a second time (and %%02x pads an empty value to 00)", f, c.Pos(call.Pos()))
 				}
 			}
@@ -580,5 +662,216 @@ func ruleStreamEOF(c *Ctx, r *Rep, tier string) {
 			why = "when the stream ends right after the first byte of a value, io.ReadFull of the announced remainder returns io.EOF (nothing was read in that call), and the function leaves it as the reader's error: every layer above takes io.EOF for the clean end of the stream, so a value cut after its first byte is not reported"
 		}
 		r.Check(why == "", rule, key, c.Pos(fn.Pos()), "io.EOF from the read of the remainder is replaced by io.ErrUnexpectedEOF", why)
+	}
+}
+
+// ---- NAME-STORE -----------------------------------------------------------------------
+//
+// Who may write the key of a header's name table: the name of a Reference or
+// ReadGroup and the uid of a Program are written only into an object made in
+// the same function (not yet in any header), or together with the table – on
+// every path to the store either the owner was found nil or the table entry for
+// the new name was made. Added for a defect of the unchanged tree (repaired
+// 6ed78f3): Reference.Set(SN, v) and ReadGroup.Set(ID, v) assigned the name
+// and left the table stale; a later AddReference for the old name indexed the
+// list with the stale entry and panicked.
+func ruleNameStore(c *Ctx, r *Rep, tier string) {
+	rule := "NAME-STORE"
+	keys := []struct{ typ, field string }{{"Reference", "name"}, {"ReadGroup", "name"}, {"Program", "uid"}}
+	isKeyField := func(fa *ssa.FieldAddr) (string, bool) {
+		pt, ok := fa.X.Type().Underlying().(*types.Pointer)
+		if !ok {
+			return "", false
+		}
+		nt, ok := pt.Elem().(*types.Named)
+		if !ok || nt.Obj().Pkg() == nil || !strings.HasSuffix(nt.Obj().Pkg().Path(), "/sam") {
+			return "", false
+		}
+		st, ok := nt.Underlying().(*types.Struct)
+		if !ok {
+			return "", false
+		}
+		for _, k := range keys {
+			if nt.Obj().Name() == k.typ && st.Field(fa.Field).Name() == k.field {
+				return k.typ + "." + k.field, true
+			}
+		}
+		return "", false
+	}
+	// fresh: an object allocated in this function, directly or as an element of a
+	// slice made and filled here
+	var fresh func(v ssa.Value, depth int) bool
+	onStack := map[ssa.Value]bool{}
+	fresh = func(v ssa.Value, depth int) bool {
+		if depth > 12 {
+			return false
+		}
+		if onStack[v] {
+			return true // a loop-carried list: decided by its other edges
+		}
+		onStack[v] = true
+		defer delete(onStack, v)
+		switch x := v.(type) {
+		case *ssa.Alloc:
+			return true
+		case *ssa.MakeSlice:
+			return true
+		case *ssa.Const:
+			return x.Value == nil
+		case *ssa.Phi:
+			for _, e := range x.Edges {
+				if e != v && !fresh(e, depth+1) {
+					return false
+				}
+			}
+			return true
+		case *ssa.UnOp:
+			if x.Op == token.MUL {
+				if ia, ok := x.X.(*ssa.IndexAddr); ok {
+					return fresh(ia.X, depth+1)
+				}
+			}
+		case *ssa.Slice:
+			return fresh(x.X, depth+1)
+		case *ssa.Call:
+			if cc, ok := isBuiltinCall(x, "append"); ok {
+				return fresh(cc.Args[0], depth+1)
+			}
+		}
+		return false
+	}
+	n := 0
+	for _, fn := range c.FuncsIn("sam") {
+		for _, f := range withAnon(fn) {
+			f := f
+			idx := 0
+			allInstrs(f, func(ins ssa.Instruction) {
+				st, ok := ins.(*ssa.Store)
+				if !ok {
+					return
+				}
+				fa, ok := st.Addr.(*ssa.FieldAddr)
+				if !ok {
+					return
+				}
+				what, ok := isKeyField(fa)
+				if !ok {
+					return
+				}
+				n++
+				idx++
+				r.Instance(rule, 1)
+				key := fmt.Sprintf("%s#%s", c.FnName(f), what)
+				if idx > 1 {
+					key += fmt.Sprintf("~%d", idx)
+				}
+				if fresh(fa.X, 0) {
+					r.Pass(rule, key, c.Pos(st.Pos()), "the object is made in this function")
+					return
+				}
+				// together with the table: no path from the entry to the store that
+				// neither found the owner nil nor entered the new name in a table
+				isTableUpdate := func(x ssa.Instruction) bool {
+					mu, ok := x.(*ssa.MapUpdate)
+					return ok && (mu.Key == st.Val || sameExpr(mu.Key, st.Val, 0))
+				}
+				ownerNilEdge := func(from, to *ssa.BasicBlock) bool {
+					ce, ok := classifyErrIf(from, func(v ssa.Value) bool {
+						ld, ok := v.(*ssa.UnOp)
+						if !ok || ld.Op != token.MUL {
+							return false
+						}
+						of, ok := ld.X.(*ssa.FieldAddr)
+						if !ok {
+							return false
+						}
+						fv := fieldVarOfAddr(of)
+						return fv != nil && fv.Name() == "owner"
+					})
+					if !ok || !ce.isNil || from.Succs[0] == from.Succs[1] {
+						return true
+					}
+					return to != from.Succs[ce.yes] // the "owner is nil" edge is not followed
+				}
+				_, reach := pathTo(entryLoc(f), is(st), isTableUpdate, ownerNilEdge)
+				if reach {
+					// or right after it: from the store every way out passes the entry
+					if _, bypass := pathTo(locOf(st), isExit, isTableUpdate, nil); !bypass {
+						// … and the store itself is not on the "no owner" side only
+						reach = false
+					}
+				}
+				if reach {
+					r.Fail(rule, key, c.Pos(st.Pos()), fmt.Sprintf("%s of an object that may belong to a header is assigned at %s on a path that neither found it without owner nor entered the new name in the header's table: the table keeps the old name (and lacks the new one), so the next AddReference / @SQ line for the old name finds a stale entry and indexes the list with it, and two members can get one name", what, c.Pos(st.Pos())))
+					return
+				}
+				r.Pass(rule, key, c.Pos(st.Pos()), "written together with the owner's table")
+			})
+		}
+	}
+	if n < 6 {
+		r.Instance(rule, 1)
+		r.Fail(rule, "sam#name-stores", "-", fmt.Sprintf("only %d writes of a name-table key found in package sam (at least 6 confirmed by reading): the rule's anchor moved", n))
+	}
+}
+
+// ---- NIL-RECV -------------------------------------------------------------------------
+//
+// The readers hand out a nil *Reference for a read without one, and the
+// accessors answer for it (Name "*", ID -1 …). Every exported method of
+// *Reference that reports something – results, no error – tests the receiver
+// for nil before it touches a field. Added for a defect of the unchanged tree
+// (repaired ba68e79): String, Tags and Get dereferenced it.
+func ruleNilRecv(c *Ctx, r *Rep, tier string) {
+	rule := "NIL-RECV"
+	refT := c.Named("sam", "Reference")
+	n := 0
+	for _, fn := range c.FuncsIn("sam") {
+		if fn.Parent() != nil || fn.Signature.Recv() == nil || fn.Object() == nil || !fn.Object().Exported() {
+			continue
+		}
+		pt, ok := fn.Signature.Recv().Type().(*types.Pointer)
+		if !ok || !types.Identical(pt.Elem(), refT) {
+			continue
+		}
+		// setters (an error result) need an object; the rule is about what can be asked of a record's Ref
+		res := fn.Signature.Results()
+		isSetter := false
+		for i := 0; i < res.Len(); i++ {
+			if types.Identical(res.At(i).Type(), types.Universe.Lookup("error").Type()) {
+				isSetter = true
+			}
+		}
+		if isSetter {
+			continue
+		}
+		n++
+		r.Instance(rule, 1)
+		recv := fn.Params[0]
+		why := ""
+		allInstrs(fn, func(ins ssa.Instruction) {
+			if why != "" {
+				return
+			}
+			fa, ok := ins.(*ssa.FieldAddr)
+			if !ok || fa.X != ssa.Value(recv) {
+				return
+			}
+			guarded := false
+			for _, b := range fn.Blocks {
+				ce, ok := classifyErrIf(b, func(v ssa.Value) bool { return v == ssa.Value(recv) })
+				if ok && ce.isNil && b.Succs[0] != b.Succs[1] && dominatedByEdge(fn, b, 1-ce.yes, fa.Block()) {
+					guarded = true
+				}
+			}
+			if !guarded {
+				why = fmt.Sprintf("the receiver's field is read at %s without a nil test: the readers return a nil *Reference for a read without reference, the sibling accessors (Name, ID, Len …) answer for it, this one panics", c.Pos(fa.Pos()))
+			}
+		})
+		r.Check(why == "", rule, c.FnName(fn)+"#nil-receiver", c.Pos(fn.Pos()), "every field access is behind r != nil", why)
+	}
+	if n < 8 {
+		r.Instance(rule, 1)
+		r.Fail(rule, "sam.Reference#accessors", "-", fmt.Sprintf("only %d reporting methods of *Reference found (11 confirmed by reading): the rule's anchor moved", n))
 	}
 }
